@@ -141,6 +141,9 @@ def B(v):
         return z3.Or([c for c, s in v.alts if s != ''] + [z3.BoolVal(False)])
     if isinstance(v, Alt):
         return z3.Or([z3.And(c, B(x)) for c, x in v.alts] + [z3.BoolVal(False)])
+    if type(v).__name__ == 'Red':
+        from .symex import red_const
+        return B(red_const(v))
     raise Unsupported('truth value of %s' % type(v).__name__)
 
 
